@@ -393,6 +393,11 @@ func (p *Program) funcValuesOf(v ssa.Value, depth int, seen map[ssa.Value]bool) 
 				idx = i
 			}
 		}
+		// an inlined helper is not listed among its host's calls (its own calls are): take the argument at its one site
+		if site := p.helperSite(fn); site != nil && idx >= 0 && idx < len(site.Common().Args) {
+			out = append(out, p.funcValuesOf(site.Common().Args[idx], depth+1, seen)...)
+			break
+		}
 		for _, g := range p.FuncList {
 			for _, c := range p.calls(g) {
 				sc := c.Common.StaticCallee()
